@@ -73,9 +73,13 @@ def _A(M, cat):
     return np.array([[float(v) for v in r] for r in rows])
 
 
-def _setup(M, cat, with_base, face_samples=False, int_bounds=None):
+def _setup(M, cat, with_base, face_samples=False, int_bounds=None, scale=None):
     A = _A(M, cat)
     m, n = np.asarray(A).shape
+    if scale is not None:
+        # intensities in very small units: A grows by 1/scale, the sampled bounds shrink by scale (captures stay O(1)); symbolically nothing changes but A
+        A = np.asarray(A) * (symnp.const(fractions.Fraction(1) / fractions.Fraction(scale)) if M.symbolic else 1.0 / float(fractions.Fraction(scale)))
+        A = A.view(symnp.SymArray) if M.symbolic else A
     if int_bounds is not None:
         # bounds typed the way users write them: integer lists (the arrays the code allocates from them must still hold real numbers)
         # (exact constants in the symbolic / exact-arithmetic runs, where typing is invisible; genuine int64 arrays in the run of the real code)
@@ -83,8 +87,9 @@ def _setup(M, cat, with_base, face_samples=False, int_bounds=None):
         if M.symbolic:
             lb = symnp.const(lb.astype(float)); ub = symnp.const(ub.astype(float))
     else:
-        lb = M.real("lb", (n,), sample=lambda r, s: r.choice([0.0, 0.1, 0.25], size=s))
-        ub = M.real("ub", (n,), sample=lambda r, s: r.uniform(1.0, 3.0, size=s))
+        sc_ = 1.0 if scale is None else float(fractions.Fraction(scale))
+        lb = M.real("lb", (n,), sample=lambda r, s: r.choice([0.0, 0.1, 0.25], size=s) * sc_)
+        ub = M.real("ub", (n,), sample=lambda r, s: r.uniform(1.0, 3.0, size=s) * sc_)
         for j in range(n):
             M.assume(lb[j] >= 0); M.assume(ub[j] > lb[j])
     # x0: any in-bound intensities; the target is their capture (interior, face, edge and vertex targets are all covered)
@@ -151,9 +156,9 @@ def lp_extent(A, b, lb, ub):
     return lo, hi
 
 
-def spaced_case(M, cat, nsp, via="public"):
+def spaced_case(M, cat, nsp, via="public", scale=None):
     from dreye.api.convex import range_of_solutions
-    A, m, n, lb, ub, t, base = _setup(M, cat, True)
+    A, m, n, lb, ub, t, base = _setup(M, cat, True, scale=scale)
     x0 = [lb[j] + t[j] * (ub[j] - lb[j]) for j in range(n)]
     Arows = np.asarray(A)
     b = np.array([fs._sum([Arows[i, j] * x0[j] for j in range(n)]) for i in range(m)], dtype=object if M.symbolic else float)
@@ -175,6 +180,10 @@ def spaced_case(M, cat, nsp, via="public"):
         gs_b.append(M.conj(M.le(np.asarray(lb), np.array(x, dtype=object if M.symbolic else float)), M.le(np.array(x, dtype=object if M.symbolic else float), np.asarray(ub))))
         gs_r.append(M.eq(np.array([fs._sum([Arows[i, j] * x[j] for j in range(n)]) for i in range(m)], dtype=object if M.symbolic else float), b))
     goals["every spaced solution lies within the bounds"] = M.conj(*gs_b)
+    if scale is not None and not M.symbolic:
+        # float64 run: tolerance relative to the (tiny) width of the bounds
+        w_ = float(np.max(np.asarray(ub, dtype=float) - np.asarray(lb, dtype=float)))
+        goals["every spaced solution lies within the bounds"] = bool(np.all(Xs >= np.asarray(lb, dtype=float) - 1e-6 * w_) and np.all(Xs <= np.asarray(ub, dtype=float) + 1e-6 * w_))
     goals["every spaced solution reproduces the target"] = M.conj(*gs_r)
     return goals
 
@@ -271,6 +280,8 @@ def cases(tier, seed):
     add("extent 2x3-rand2 helper, integer-typed bounds [0,1,0]..[2,5,3]", "extent_case", cat="2x3-rand2", int_bounds=([0, 1, 0, 0, 0], [2, 5, 3, 3, 2]),
         opts=dict(float_strict=True, n_validate=3))
     add("spaced 2x3-rand1 n=2", "spaced_case", cat="2x3-rand1", nsp=2)
+    add("spaced 2x3-rand1 n=3, sampled intensities in units of 1e-9", "spaced_case", cat="2x3-rand1", nsp=3, scale="1/1000000000")
+    C[-1]["opts"]["n_validate"] = 3
     if big:
         # 3 receptors x 4 sources: all clauses except attainment of the ends (that clause returned unknown for 4 of 225 paths after 60 s each)
         add("extent 3x4-rand1 (bounds, containment, maximal extent)", "extent_case", cat="3x4-rand1", attain=False, opts=dict(max_paths=20000))
